@@ -63,11 +63,12 @@ def _mutables(o, seen=None, path="", out=None, depth=0):
 def _shared_mutables(a, b):
     """paths of mutable objects reachable from both a and b (identity, or overlapping array memory)"""
     ma, mb = _mutables(a), _mutables(b)
-    ids = {id(x): p for p, x in ma}
+    frozen = lambda x: isinstance(x, np.ndarray) and not x.flags.writeable          # a shared read-only array cannot carry an edit across
+    ids = {id(x): p for p, x in ma if not frozen(x)}
     out = [f"{ids[id(y)]} is {q}" for q, y in mb if id(y) in ids]
-    arr_a = [(p, x) for p, x in ma if isinstance(x, np.ndarray) and x.size]
+    arr_a = [(p, x) for p, x in ma if isinstance(x, np.ndarray) and x.size and not frozen(x)]
     for q, y in mb:
-        if isinstance(y, np.ndarray) and y.size:
+        if isinstance(y, np.ndarray) and y.size and not frozen(y):
             for p, x in arr_a:
                 if x is not y and np.shares_memory(x, y):
                     out.append(f"{p} shares memory with {q}")
@@ -191,10 +192,15 @@ def check_c18(seed, tier):
             fails += _coherence(name, b, labels, dict(case, phase="after twin"), seed, "after an equal copy was queried")
             # the block changes through its public interface between queries: answers follow the current content
             lst = getattr(b, LOOKUP[name][0])
-            for step in ("relabel", "drop", "empty", "refill"):
+            for step in ("refused", "relabel", "drop", "refused", "empty", "refill"):
                 n += 1
                 try:
-                    if step == "relabel" and len(lst):
+                    if step == "refused":
+                        # requests the block has to refuse (wrong length, junk, channel in use) leave the lookups coherent
+                        from harness import edits
+                        if name in ("Data3D", "ForceTorque3D", "EMG"):
+                            edits.refused_operations(name, b, rng)
+                    elif step == "relabel" and len(lst):
                         k = rng.randrange(len(lst))
                         lst[k].label = lst[k].label + "'" if len(lst[k].label) < 200 else "q"
                     elif step == "drop" and len(lst):
@@ -249,8 +255,20 @@ def check_c16(seed, tier):
         for nf in (0, 1, 3):
             for k in (0, 2):
                 # single add: right length, wrong length, wrong kind
-                for what in ["ok", "short", "long", "regrown", "matrix"] + list(range(len(junk))) + ["othertrack"]:
-                    b = mkb(nf, k)
+                for what in ["ok", "short", "long", "regrown", "regrown_first", "regrown_last", "matrix"] + list(range(len(junk))) + ["othertrack"]:
+                    try:
+                        b = mkb(nf, k)
+                    except Exception as e:
+                        # a new block of nf frames with k valid tracks of nf frames: nothing to refuse (tracks left over from
+                        # an earlier block of another length would explain it)
+                        fails.append(_f("C16", "C16.fresh_block", name, f"building a block of {nf} frames with {k} tracks of {nf} frames raised {e!r}", dict(block=name, frames=nf, prior=k, add="(setup)"), seed))
+                        if len(fails) > 12:
+                            return dict(what="track-length / all-or-nothing contracts on real blocks", cases=n, label="bounded", bound="stopped early"), fails
+                        continue
+                    foreign = [t for t in getattr(b, fld) if getattr(t, "nFrames", getattr(t, "nSamples", nf)) != nf]
+                    if len(getattr(b, fld)) != k or foreign:
+                        fails.append(_f("C16", "C16.fresh_block", name, f"a new block of {nf} frames given {k} tracks holds {len(getattr(b, fld))} tracks ({len(foreign)} of another length)", dict(block=name, frames=nf, prior=k, add="(setup)"), seed))
+                        continue
                     twin = copy.deepcopy(b)
                     case = dict(block=name, frames=nf, prior=k, add=str(what))
                     n += 1
@@ -276,6 +294,19 @@ def check_c16(seed, tier):
                         for attr, val in vars(longer).items():
                             if isinstance(val, np.ndarray) and hasattr(x, attr):
                                 setattr(x, attr, val)
+                    elif what in ("regrown_first", "regrown_last"):
+                        # only one of the track's arrays replaced by a longer one: if the track now counts another number of
+                        # frames than the block it must be refused, whatever its other arrays say
+                        x = mkt(nf)
+                        longer = mkt(nf + 3)
+                        arrs = [a_ for a_, v_ in vars(longer).items() if isinstance(v_, np.ndarray) and hasattr(x, a_)]
+                        if len(arrs) < 2:
+                            continue
+                        a_ = arrs[0] if what == "regrown_first" else arrs[-1]
+                        setattr(x, a_, getattr(longer, a_))
+                        cnt = getattr(x, "nFrames", None) if hasattr(x, "nFrames") else getattr(x, "nSamples", None)
+                        if cnt == nf:
+                            continue        # the track still counts nf frames: whether it is valid is not C16's business
                     elif what == "othertrack":
                         x = gen.emg_track(rng, nf) if name != "EMG" else gen.marker_track(rng, nf)
                     else:
@@ -510,6 +541,14 @@ def check_c20(seed, tier):
                 r2 = real_build(name, io.BytesIO(raw), src)
                 if _snapshot(name, r1) != _snapshot(name, r2):
                     fails.append(_f("C20", "C20.decode_shared", name, "two decodes of the same bytes differ (the second depends on what an earlier, discarded object left in memory)", case, seed))
+                # ... also in what the encoding does not show (frames inside a gap): every array of one decode holds the bytes
+                # of its counterpart in the other
+                m1 = {p_: a_ for p_, a_ in _mutables(r1) if isinstance(a_, np.ndarray) and a_.dtype != object}
+                m2 = {p_: a_ for p_, a_ in _mutables(r2) if isinstance(a_, np.ndarray) and a_.dtype != object}
+                diff = [p_ for p_ in m1 if p_ in m2 and (m1[p_].shape != m2[p_].shape or m1[p_].tobytes() != m2[p_].tobytes())]
+                if diff or set(m1) != set(m2):
+                    fails.append(_f("C20", "C20.decode_shared", name, f"two decodes of the same bytes hold different values in {(diff or sorted(set(m1) ^ set(m2)))[:3]} "
+                                    "(the second depends on what an earlier, discarded object left in memory)", case, seed))
                 shared = _shared_mutables(r1, r2)
                 if shared:
                     fails.append(_f("C20", "C20.decode_shared", name, f"two decodes of the same bytes share mutable state: {shared[:3]}", case, seed))
@@ -619,6 +658,28 @@ def check_c20(seed, tier):
                 if any(x is marker for x in getattr(b, attr)) or any(x is marker for x in getattr(later, attr)):
                     fails.append(_f("C20", "C20.shared", name, f"appending to .{attr} of one block shows in another / in a block built later", dict(block=name, scenario=f"append to {attr}"), seed))
                 del val[-1]
+    # construction with an explicit item list: two blocks built from the same list, and the list itself, stay independent of
+    # what is done to one of the blocks through its own mutators (the calibration block is the one whose constructor takes items
+    # and which has add / remove methods of its own)
+    n += 1
+    try:
+        from basictdf.tdfForcePlatformsCalibration import ForcePlatformsCalibrationDataBlock as _PC
+        r_ = random.Random(f"{seed}:c20:explicit")
+        given = [gen.plat_info(r_), gen.plat_info(r_)]
+        first, second = _PC(platforms=given), _PC(platforms=given)
+        s2 = _snapshot("PlatformsCalibration", second)
+        first.add_platform(gen.plat_info(r_))
+        first.remove_platform(0)
+        case = dict(block="PlatformsCalibration", scenario="two blocks built from the same explicit list; one of them edited through add_platform / remove_platform")
+        if _snapshot("PlatformsCalibration", second) != s2 or len(second._platforms) != 2:
+            fails.append(_f("C20", "C20.shared", "PlatformsCalibration", "editing a block built from an explicit list changed another block built from the same list", case, seed))
+        if len(given) != 2:
+            fails.append(_f("C20", "C20.shared", "PlatformsCalibration", f"editing a block built from an explicit list changed the caller's list (now {len(given)} items)", case, seed))
+        # (the items themselves are the caller's objects in both blocks: that sharing is the caller's; the containers are not)
+        if first._platforms is second._platforms or first._platforms is given or first._platformMap is second._platformMap:
+            fails.append(_f("C20", "C20.shared", "PlatformsCalibration", "two blocks built from the same explicit list hold one list object", case, seed))
+    except Exception as e:
+        fails.append(_f("C20", "C20.exception", "PlatformsCalibration", f"explicit-list construction scenario raised {e!r}", dict(block="PlatformsCalibration", scenario="explicit list"), seed))
     # event values
     n += 1
     e1, e2 = Event("a"), Event("b")
@@ -738,7 +799,7 @@ def check_c19(seed, tier):
                 fails.append(_f("C19", "C19.accept" if acc else "C19.refuse", cname, f"{cname} viewport={desc[:40]} was {'accepted' if acc else 'refused'}",
                                 dict(ctor=cname, arg="viewport", value=desc[:40]), seed))
     # coupled arrays
-    cshapes = [(4, 3), (4,), (3,), (4, 2), (5, 3), (), (4, 3, 1), (0, 3), (2, 2, 3), (1, 3)]
+    cshapes = [(4, 3), (4,), (3,), (4, 2), (5, 3), (), (4, 3, 1), (0, 3), (2, 2, 3), (1, 3), (0,), (0, 0), (0, 4), (4, 0), (2, 0, 3)]       # zero-size arrays have a shape too
     for sa, sb, sc in itertools.product(cshapes, repeat=3):
         if tier == "quick" and rng.random() < 0.6 and not (sa == sb == sc):
             continue
